@@ -59,6 +59,14 @@ def val(w: World, v):
     return v
 
 
+def mk_state(w: World, x):
+    """A state argument: {"st": k} is the pool State k (reused as an argument,
+    frame-checked), a list builds a fresh State."""
+    if isinstance(x, dict) and "st" in x:
+        return w.get("st", x["st"])
+    return lw.State(list(x))
+
+
 def pids_in(*vals) -> set:
     return {v["p"] for v in vals if isinstance(v, dict) and "p" in v}
 
@@ -438,8 +446,8 @@ def _new_state(w, o):
 @op("simulate")
 def _simulate(w, o):
     c = w.get("c", o["c"])
-    ins = [lw.State(list(s)) for s in o["inputs"]]
-    outs = None if o.get("outputs") is None else [lw.State(list(s)) for s in o["outputs"]]
+    ins = [mk_state(w, s) for s in o["inputs"]]
+    outs = None if o.get("outputs") is None else [mk_state(w, s) for s in o["outputs"]]
     sim = w.call(emu.Simulator, c)
     res = w.call(sim.simulate, ins if len(ins) > 1 else ins[0], outs)
     return list(res.array.shape)
@@ -463,7 +471,7 @@ def _display(w, o):
 def _bystander_sample(w, o):
     """A throw-away Sampler / QuickSampler / Analyzer on a pool circuit."""
     c = w.get("c", o["c"])
-    st = lw.State(list(o["state"]))
+    st = mk_state(w, o["state"])
     kind = o.get("kind", "sampler")
     if kind == "sampler":
         s = w.call(emu.Sampler, c, st)
@@ -628,7 +636,7 @@ def _hold(w, cid):
 @op("new_sampler")
 def _new_sampler(w, o):
     c = w.get("c", o["c"])
-    st = w.call(lw.State, list(o["state"]))
+    st = mk_state(w, o["state"])
     src = None if o.get("src") is None else w.get("src", o["src"])
     det = None if o.get("det") is None else w.get("det", o["det"])
     s = w.call(emu.Sampler, c, st, src, det, o.get("backend"))
@@ -640,7 +648,7 @@ def _new_sampler(w, o):
 @op("new_quick")
 def _new_quick(w, o):
     c = w.get("c", o["c"])
-    st = w.call(lw.State, list(o["state"]))
+    st = mk_state(w, o["state"])
     ps = _psobj(w, o.get("ps"))
     q = w.call(emu.QuickSampler, c, st, o.get("pnr", True), ps)
     w.put("qs", o["out"], q, circuit=o["c"], ps=o.get("ps"), state="new")
@@ -664,7 +672,10 @@ def _cons_set(w, o):
     if attr == "circuit":
         v = w.get("c", o["ref"]) if o.get("ref") is not None else o.get("value")
     elif attr == "input_state":
-        v = w.call(lw.State, list(o["value"])) if isinstance(o.get("value"), list) else o.get("value")
+        if isinstance(o.get("value"), dict) and "st" in o["value"]:
+            v = w.get("st", o["value"]["st"])
+        else:
+            v = w.call(lw.State, list(o["value"])) if isinstance(o.get("value"), list) else o.get("value")
     elif attr == "source":
         v = w.get("src", o["ref"]) if o.get("ref") is not None else o.get("value")
     elif attr == "detector":
